@@ -606,6 +606,14 @@ def predicate(d, extra, prior):
     why = check_component(d, extra, comps[-1])
     if why:
         return ("set-config-component", why)
+    # the caller owns the component it got: editing its tag list (a hardware filter added, the reboot tag cleared) must
+    # not show up in the configuration component of any LATER set_config, on this or another file object - the next
+    # evaluation of this predicate would see it
+    desc = comps[-1].description
+    for t in list(desc):
+        if t not in (0xC2, 0xC3):
+            desc[t] = b"\x00"
+    desc[0xC4] = b"\xee\xee"
     return None
 
 
